@@ -45,6 +45,7 @@ from mypyc.ir.ops import (
     ControlOp,
     DecRef,
     GetAttr,
+    GetElement,
     GetElementPtr,
     Goto,
     IncRef,
@@ -52,6 +53,7 @@ from mypyc.ir.ops import (
     KeepAlive,
     LoadAddress,
     LoadErrorValue,
+    LoadLiteral,
     LoadMem,
     MethodCall,
     Op,
@@ -61,6 +63,7 @@ from mypyc.ir.ops import (
     SetAttr,
     SetMem,
     TupleGet,
+    TupleSet,
     Unborrow,
     Unbox,
     Unreachable,
@@ -83,7 +86,14 @@ CORRECTIONS = [
     "overlapping error values (ERR_MAGIC_OVERLAPPING on a ref-counted tuple): the comparison / PyErr_Occurred "
     "sequence inserted by exceptions.py is correlated with the state of the call result",
     "a Return created by a yield, before insert_spills has run (stage 'refcount'): values live across the yield "
-    "are still held in temporaries; the leak check at such a Return applies only to the final stage",
+    "are still held in temporaries; the leak check at such a Return and the undefined-read check of temporaries "
+    "after the resume dispatch apply only to the final stage",
+    "an ERR_MAGIC result that no Branch.IS_ERROR tests (reads of spilled temporaries inserted by insert_spills) is "
+    "non-NULL, as the compiler assumes; nullable results are exactly those the function tests or declares",
+    "borrowed results of C calls are not tied to the lifetime of the call's arguments (only interior references "
+    "GetAttr/TupleGet/Cast/GetElement with borrow are)",
+    "flag registers: a literal 0/1 stored in a non-ref-counted register decides a later Branch.BOOL on that "
+    "register (irbuild correlates such flags with the definedness of unnamed temporaries, e.g. async for)",
 ]
 
 
@@ -150,6 +160,8 @@ class FnChecker:
                 st = op.stolen()
                 for s in st:
                     max_mult = max(max_mult, st.count(s))
+        self.pre_spill_generator = self.stage == "refcount" and any(
+            isinstance(b.ops[-1], Return) and b.ops[-1].yield_target is not None for b in self.blocks)
         self.vals = vals
         self.idx: dict[Value, int] = {v: i for i, v in enumerate(vals) if v not in self.escaped}
         self.refc = [v.type.is_refcounted for v in vals]
@@ -159,7 +171,10 @@ class FnChecker:
         self.borrowers: dict[int, list[int]] = {}
         for b in self.blocks:
             for op in b.ops:
-                if isinstance(op, RegisterOp) and op in self.idx and (op.is_borrowed or isinstance(op, Unborrow)):
+                if (isinstance(op, (GetAttr, TupleGet, Cast, GetElement, Unborrow)) and op in self.idx
+                        and (op.is_borrowed or isinstance(op, Unborrow))):
+                    # interior references: valid only while the aggregate they point into is.  Borrowed results
+                    # of C calls are NOT tied to their arguments (contract of the C function, trusted).
                     ls = [self.idx[s] for s in op.unique_sources() if s in self.idx and s.type.is_refcounted]
                     if ls:
                         self.lenders[self.idx[op]] = ls
@@ -180,15 +195,18 @@ class FnChecker:
         self._liveness()
 
     def may_be_null(self, op: Op) -> bool:
+        """Can the result be the error value?  Yes iff the function itself tests it with Branch.IS_ERROR (after
+        insert_exception_handling that is every op that can raise), or the op declares a NULL result that is not
+        an error.  An ERR_MAGIC result that no branch tests (reads of spilled temporaries inserted by
+        insert_spills after the exception transform) is assumed non-NULL, as the compiler assumes."""
         if isinstance(op, LoadErrorValue):
             return False  # always NULL, handled separately
-        ek = getattr(op, "error_kind", 0)
-        if ek in (ERR_MAGIC, ERR_MAGIC_OVERLAPPING):
-            return True
         if isinstance(op, CallC) and op.returns_null:
             return True
         if isinstance(op, GetAttr) and op.allow_error_value:
             return True
+        if isinstance(op, (LoadLiteral, LoadAddress, Box, TupleSet)):
+            return False  # cannot produce the error value even if (after copy propagation) a branch tests them
         return op in self.is_error_tested
 
     def _uses(self, op: Op) -> list[int]:
@@ -280,6 +298,9 @@ class FnChecker:
                     if (c >> 3) == 0:
                         stack.append(w)
 
+    def _owned(self, s: list[int], i: int) -> int:
+        return (s[i] >> 3) if self.refc[i] else 0
+
     def _release(self, s: list[int], i: int, invalidate: bool = True) -> None:
         c = s[i]
         n = (c >> 3) - 1
@@ -313,12 +334,17 @@ class FnChecker:
             c = s[i]
             d = c & 3
             if d == UNDEF:
-                self.flag("undefined-read", op, v, pos, key)
+                if not (self.pre_spill_generator and not isinstance(v, Register)):
+                    self.flag("undefined-read", op, v, pos, key)
             elif not self.refc[i]:
                 continue
             elif d == NULL:
                 if not is_x and self._null_position(op, v):
                     self.flag("null-deref", op, v, pos, key)
+                elif isinstance(op, SetAttr) and op.src is v and isinstance(v, Register):
+                    # storing a register that holds the error value on this path (not an explicit <error> op, not
+                    # a result stored before its own error check): the attribute silently becomes undefined
+                    self.flag("null-store", op, v, pos, key)
             elif (c >> 3) == 0 and not (c & 4):
                 if isinstance(op, DecRef):
                     continue  # reported as over-release below
@@ -416,7 +442,11 @@ class FnChecker:
             if di is None:
                 return [(s, ex)]
             if not self.refc[di]:
-                s[di] = C_BORROWED
+                # flag registers: remember a literal 0/1 so that a later `if flag` is decided by the path
+                if isinstance(op.src, Integer) and op.src.value in (0, 1):
+                    s[di] = C_BORROWED | ((op.src.value + 1) << 3)
+                else:
+                    s[di] = C_BORROWED
                 return [(s, ex)]
             old = s[di]
             si = idx.get(op.src)
@@ -486,7 +516,7 @@ class FnChecker:
         live = self.live_in[bi]
         out = []
         for i, c in enumerate(s):
-            if (c >> 3) > 0 or i in live:
+            if i in live or ((c >> 3) > 0 and self.refc[i]):
                 out.append(c)
             else:
                 out.append(0)
@@ -581,7 +611,7 @@ class FnChecker:
             v = op.value
             i = idx.get(v)
             conds: list[bool]
-            if i is not None and (s[i] & 3) == UNDEF:
+            if i is not None and (s[i] & 3) == UNDEF and not (self.pre_spill_generator and not isinstance(v, Register)):
                 self.flag("undefined-read", op, v, pos, key)
             if op.op == Branch.IS_ERROR:
                 if i is not None and self.refc[i] and (s[i] & 3) != UNDEF:
@@ -593,6 +623,8 @@ class FnChecker:
             else:
                 if isinstance(v, Integer):
                     conds = [v.value != 0]
+                elif i is not None and not self.refc[i] and (s[i] >> 3) > 0:
+                    conds = [(s[i] >> 3) == 2]
                 elif v in self.overlap_cmp:
                     root = self.overlap_cmp[v]
                     out = []
@@ -623,7 +655,8 @@ class FnChecker:
                 c = s[i]
                 d = c & 3
                 if d == UNDEF:
-                    self.flag("undefined-read", op, v, pos, key)
+                    if not (self.pre_spill_generator and not isinstance(v, Register)):
+                        self.flag("undefined-read", op, v, pos, key)
                 elif self.refc[i]:
                     if d == NULL:
                         is_err = True
@@ -663,7 +696,24 @@ class FnChecker:
         return out[::-1]
 
 
+def malformed(fn: FuncIR) -> bool:
+    """A control op that targets a block which is not part of the function (cannot be compiled to C at all)."""
+    ids = {id(b) for b in fn.blocks}
+    for b in fn.blocks:
+        if not b.ops or not isinstance(b.ops[-1], ControlOp):
+            return True
+        for t in b.ops[-1].targets():
+            if id(t) not in ids:
+                return True
+    return False
+
+
 def check_function(fn: FuncIR, stage: str, max_states: int = 400000) -> dict:
+    if malformed(fn):
+        return {"states": 0, "transitions": 0, "entry_states": 0, "capped": False, "blocks": len(fn.blocks),
+                "ops": sum(len(b.ops) for b in fn.blocks), "tracked": 0, "escaped": 0,
+                "ends": {"return": 0, "error_return": 0, "unreachable": 0, "yield": 0}, "arg_null_combos_capped": False,
+                "n_increfs": 0, "n_decrefs": 0, "violations": [], "malformed": True}
     ck = FnChecker(fn, stage, max_states)
     ck.run()
     viols = []
@@ -685,4 +735,5 @@ def check_function(fn: FuncIR, stage: str, max_states: int = 400000) -> dict:
         "n_increfs": sum(isinstance(o, IncRef) for b in fn.blocks for o in b.ops),
         "n_decrefs": sum(isinstance(o, DecRef) for b in fn.blocks for o in b.ops),
         "violations": viols,
+        "malformed": False,
     }
